@@ -53,6 +53,15 @@ fn make_split(g: &Grammar, rng: &mut Rng, levels: usize) -> Split {
         flat.push_str(pre);
         flat.push_str(inc_content);
         flat.push_str(post);
+    } else if rng.chance(1, 3) {
+        // an A2ML block that the A2ML parser rejects (kept as text in non-strict mode): flattening must keep its text
+        let a2ml = if rng.chance(1, 2) {
+            "/begin A2ML\nstruct NoIfData { uint; };\n/end A2ML\n"
+        } else {
+            "/begin A2ML\nblock \"IF_DATA\" taggedunion {\n/end A2ML\n"
+        };
+        main.push_str(a2ml);
+        flat.push_str(a2ml);
     }
     while i < children.len() {
         if rng.chance(1, 3) && i + 1 < children.len() {
